@@ -820,7 +820,7 @@ def execute(ctx, plan, stats=None, extra_oracles=None, prop="C20", names=None):
         # call of the history is made once more at the end (and a few default-argument calls are added);
         # each must still equal its fresh-state outcome.  Only a differing outcome is a violation.
         truncated = bool(trace) and trace[-1].get("outcome") == "budget"
-        paranoid = plan.get("run", 0) % 16 == 3     # witness calls also without any observed drift, in 1 of 16 runs
+        paranoid = derive(plan["run_seed"], "paranoid") % 16 == 0     # witness calls also without any observed drift, in about 1 of 16 runs (spread over all lanes)
         if (drifted or paranoid or any(r.get("interp_changed") for r in trace)) and not truncated:
             st["witness_runs"] = st.get("witness_runs", 0) + 1
             wit = [(dict(op, id="witness-%s" % op.get("id")), ro) for op, ro in executed]
